@@ -24,11 +24,14 @@ Exprs == {"* * * * *", "*/5 * * * *", "0 0 * * *", "5-10,20 1-3 * * 1-5", "H * *
           "0 0 1 1 * 2020", "0 0 31 2 *", "0 0 30 2 * *", "0 0 * * 7", "0 0 * * 0", "0 0 * * SUN", "0 0 1 JAN *", "60 * * * *", "* * * *", "", "not cron", "*/0 * * * *", "0 0 * * 8"}
 TZs == {"", "UTC", "Asia/Singapore", "America/New_York", "UTC+8", "UTC+08:00", "UTC-10:00", "GMT-3", "GMT+5:30", "UTC+25", "Mars/Olympus", "utc", "+08:00", "Local", "Z"}
 FamP == {[fam |-> "P", expr |-> e, tz |-> tz, fmt |-> f, hash |-> h] : e \in Exprs, tz \in TZs, f \in {"standard", "quartz"}, h \in Bools}
+        \* template metadata copied from another JobConfig's Job: labels with the reserved JobConfig-UID key, and annotations
+        \cup {[fam |-> "P", expr |-> e, tz |-> "UTC", fmt |-> "standard", hash |-> TRUE, tl |-> "reserved"] : e \in {"* * * * *", "H * * * *", "0 0 1 1 * 2020"}}
         \cup {[fam |-> "P", expr |-> "", exprs |-> es, tz |-> "UTC", fmt |-> f, hash |-> h] :
                  es \in {<<"0 0 1 1 * 2020", "*/5 * * * *">>, <<"*/5 * * * *", "0 0 1 1 * 2020">>, <<"* * * * *", "not cron">>, <<"H * * * *", "H/2 * * * *">>, <<"0 0 31 2 *">>, <<>>},
                  f \in {"standard", "quartz"}, h \in Bools}
         \cup {[fam |-> "P", expr |-> "* * * * *", exprs |-> <<"*/5 * * * *">>, tz |-> "UTC", fmt |-> "standard", hash |-> TRUE]}
-Cases == {x \in FamA : WellA(x)} \cup FamP \cup FamB \cup {x \in FamC : WellC(x)} \cup {x \in FamU : WellU(x)}
+FamD == {[fam |-> "D", pt1 |-> a, pt2 |-> b] : a \in {-1, 0, 5}, b \in {-1, 0, 9}}
+Cases == {x \in FamA : WellA(x)} \cup FamP \cup FamD \cup FamB \cup {x \in FamC : WellC(x)} \cup {x \in FamU : WellU(x)}
 Init == c \in Cases
 Next == UNCHANGED c
 Spec == Init /\ [][Next]_c
